@@ -39,7 +39,7 @@ META = {
 
 T_ = t.TypeVar('T_')
 PROBES: t.List[t.Any] = [[1, 'a', 2.0], ['a', 2.0, 1], ['a'], {'a': 1.0}, {'x': 1}, {'x': 'a'}, [1, 'a'], {'v': 1}, {'v': 'a'}, [1],
-                         {'inner': {'x': 1}, 'n': 1}, 7, 0, -0.0, 0.0, 1, ['1.5'], [2.5], {'myField': 1}]
+                         {'inner': {'x': 1}, 'n': 1}, 7, 0, -0.0, 0.0, 1, ['1.5'], [2.5], {'myField': 1}, {'n': 2}]
 
 _FIX: t.Dict[str, t.Any] = {}
 
@@ -473,6 +473,9 @@ def scenarios():
                 out.append({'kind': 'keycache', 'maxsize': mode, 'shape': list(shape), 'keys': ''.join(keys)})
     for pair in (('tup_a', 'tup_b'), ('tup_a', 'tup_a'), ('list_str', 'dict_sf'), ('struct_int', 'struct_str'), ('dc_shared', 'dc_shared')):
         out.append({'kind': 'make_converter', 'types': list(pair)})
+    # two threads serialise / convert the SAME container object through one memoised converter (scheduling points also inside the
+    # converters' own into_data / try_convert code)
+    out.append({'kind': 'make_converter', 'types': ['shared_value', 'shared_value']})
     return out
 
 
@@ -545,6 +548,26 @@ def run_scenario(pane, sc, bound, res, only_prefix=None):
             from pane.convert import make_converter
             make_converter.cache.clear()
             observed = []
+            if kinds[0] == 'shared_value':
+                shared = [[1, 2], [3], {'k': [4]}]
+                LT = t.List[t.Any]
+                want = [[1, 2], [3], {'k': [4]}]
+
+                def sv_body(i):
+                    def run_body():
+                        d = pane.into_data(shared, LT)
+                        r = pane.from_data(shared, LT)
+                        c = pane.convert(shared, LT)
+                        observed.append((i, d == want and r == want and c == want, (d, r, c)))
+                        return repr(d)
+                    return run_body
+
+                def sv_check(run):
+                    for i, ok, r in observed:
+                        if not ok:
+                            return f"thread {i} got {r!r}"
+                    return None if len(observed) == 2 else f"only {len(observed)} of 2 threads completed"
+                return [sv_body(0), sv_body(1)], sv_check
             if kinds[0] == 'dc_shared':
                 # two threads use one dataclass for the first time concurrently (its converter is built on first use)
                 import fractions
@@ -588,6 +611,19 @@ def run_scenario(pane, sc, bound, res, only_prefix=None):
                     return f"only {len(observed)} of 2 threads completed"
                 return None
             return [body(0), body(1)], check
+    if sc.get('types', [None])[0] == 'shared_value':
+        import pane.converters as _pc
+
+        def _codes(co, acc):
+            acc.add(co)
+            for c in co.co_consts:
+                if hasattr(c, 'co_code'):
+                    _codes(c, acc)
+        for cls_ in (_pc.SequenceConverter, _pc.DictConverter, _pc.AnyConverter):
+            for meth in ('into_data', 'try_convert'):
+                fn = cls_.__dict__.get(meth)
+                if fn is not None:
+                    _codes(fn.__code__, watched)
     ex = sched.Explorer(make, watched, bound, max_schedules=60000)
     if only_prefix is not None:
         run, problem, outcome = ex.run_once(only_prefix)
@@ -735,6 +771,7 @@ def run_shard(shard, tier):
         # sequences of the file readers on the same texts: what one does to shared state must not change what the next returns
         from mc.checks import c19
         c19.reader_histories(pane, res)
+        c19.multi_doc_union_orders(pane, res)
         return res
     scs = scenarios()
     for i in range(shard['from'], shard['to']):
@@ -756,7 +793,7 @@ def replay(cell):
     pane = core.import_pane()
     warnings.simplefilter('ignore')
     res = core.new_result()
-    if cell.get('reader_histories') or cell.get('part') in ('valseq', 'hseq'):
+    if cell.get('reader_histories') or cell.get('multi_union') or cell.get('part') in ('valseq', 'hseq'):
         return []          # (history-dependent by construction: confirmed by re-running the originating shard)
     if cell['part'] == 'hist':
         # re-run the shard's search (same allocation history as the original fresh worker) to the recorded depth
@@ -771,7 +808,7 @@ def replay(cell):
         if st.problem:
             return [{'sig': {'kind': 'history_dependent_result'}, 'msg': st.problem, 'cell': cell, 'cost': 0}]
         return []
-    if cell.get('reader_histories') or cell.get('part') in ('valseq', 'hseq'):
+    if cell.get('reader_histories') or cell.get('multi_union') or cell.get('part') in ('valseq', 'hseq'):
         return []          # (history-dependent by construction: confirmed by re-running the originating shard, see core.run_replay)
     sc = scenarios()[cell['scenario']]
     v = run_scenario(pane, sc, cell['bound'], res, only_prefix=cell['choices'])
